@@ -503,7 +503,10 @@ def decide(cx, prop, tier, seed, t_start):
         seq = seq_prefix(seqmaps.get(suite, {}), row['seq']) if row else None
         if seq is not None and found:
             try:
-                seq = shrink(cx, work, suite, seq, lambda x: failing(x, col))
+                # keep what makes the transition an alarm: a model diff / hang, or a rejection outside the listed classes
+                # (shrinking towards a rejection that is a listed finding would lose the failure)
+                seq = shrink(cx, work, suite, seq, lambda x: x['model'] in ('DIFF', 'HANG', '?') or
+                             (x['f'].get(col, 'na').startswith('rej') and x['f'].get(clscol, '-') not in known_classes))
             except Exception as e:
                 notes.append('shrink failed: %s' % e)
         body = dict(property=prop, kind=kind, suite=suite, seq=seq, detail=extra,
@@ -517,7 +520,7 @@ def decide(cx, prop, tier, seed, t_start):
 
     # 1. a spec rejection outside the listed findings (or a listed class failing differently from the model)
     if rejs_unknown:
-        r0 = sorted(rejs_unknown, key=lambda r: int(re.sub(r'\D', '', r['seq'].rsplit('.', 1)[-1]) or 0))[0]
+        r0 = sorted(rejs_unknown, key=lambda r: (r['f'].get(clscol, '-') in known_classes, int(re.sub(r'\D', '', r['seq'].rsplit('.', 1)[-1]) or 0)))[0]
         emit_violation('spec-rejection', r0, 'spec verdict %s class %s; %d such transitions' % (r0['f'].get(col), r0['f'].get(clscol), len(rejs_unknown)), True)
     # 2. model/implementation disagreement with the spec still satisfied at those transitions
     elif diffs:
